@@ -220,9 +220,17 @@ def parse_result_lines(text):
 
 def _run_sharded(binary, lines, tag, extra_args=(), timeout=900, nshards=None, env=None, prefix=()):
     os.makedirs(os.path.join(BUILD, "cases"), exist_ok=True)
-    n = nshards or max(1, min(NPROC, len(lines) // 50 + 1))
+    # more shards than cores, taken from a queue: a few slow cases then do not pile up in one shard
+    n = nshards or max(1, min(4 * NPROC, len(lines) // 25 + 1))
     shards = [lines[i::n] for i in range(n)]
     def work(i):
+        t0 = time.time()
+        try:
+            return work1(i)
+        finally:
+            if os.environ.get("VERIF_TIMING"):
+                sys.stderr.write("[timing] %s shard %d/%d (%d cases): %.1fs\n" % (tag, i, n, len(shards[i]), time.time() - t0))
+    def work1(i):
         path = os.path.join(BUILD, "cases", "%s-%d-%d.txt" % (tag, os.getpid(), i))
         with open(path, "w") as f:
             f.write("\n".join(shards[i]) + "\n")
@@ -242,7 +250,7 @@ def _run_sharded(binary, lines, tag, extra_args=(), timeout=900, nshards=None, e
             except OSError:
                 pass
         return out, rc, err
-    with ThreadPoolExecutor(max_workers=n) as ex:
+    with ThreadPoolExecutor(max_workers=min(n, NPROC)) as ex:
         rs = list(ex.map(work, range(n)))
     res = {}
     crashed = []
